@@ -32,6 +32,8 @@ AllLists == ListsN \cup ListsM \cup ListsP \cup ListsS
 \* values that are different but look alike when printed: 1 and "1", 0 and "0", 0 and -0 (equal), NaN and NaN (not equal)
 ConfD  == {Fin(1), Str(<<6>>), Fin(0), NZero, Str(<<5>>), NaN, List(<<Fin(1)>>), List(<<Str(<<6>>)>>)}
 ListsC == {List(s) : s \in SeqsOver(ConfD, 3)}
+\* zeros of both signs among other numbers: equal for the ordering, yet distinguishable - a stable sort keeps their order
+ListsZ == {List(s) : s \in SeqsOver({Fin(0), NZero, Fin(1), Fin(-1)}, 4)}
 
 N == Null
 C1(f, v)          == Call(f, v, N, 0, 0, "")
@@ -43,6 +45,7 @@ CK(f, v, k)       == Call(f, v, N, 0, 0, k)
 Cases ==
      {C1(f, l) : f \in {"sort", "unique", "reverse", "len", "head", "tail", "flatten", "spread1"}, l \in AllLists}
   \cup {C1(f, l) : f \in {"unique", "reverse", "spread1", "flatten"}, l \in ListsC}
+  \cup {C1(f, l) : f \in {"sort", "unique"}, l \in ListsZ} \cup {CK("sort_by", l, k) : l \in ListsZ, k \in {"id", "neg"}}
   \cup {CI("chunk", l, n) : l \in ListsN \cup ListsM, n \in 1..3}
   \cup {CI("index", v, i) : v \in ListsN \cup ListsM \cup Strs, i \in -4..4}
   \cup {CIJ("slice", v, i, j) : v \in ListsN \cup Strs, i \in 0..3, j \in 0..4}
